@@ -247,6 +247,7 @@ func runC02(c *core.Ctx) error {
 	if err := c02Batch(c, c02Boundary()); err != nil {
 		return err
 	}
+	c02StreamRoots(c, c.Rand.Fork())
 	c02FailedEncodes(c, c.Rand.Fork(), c.Pick(150, 10000))
 	c02HelperHistories(c, c.Rand.Fork(), c.Pick(150, 10000), dagcbor.Encode, func(n datamodel.Node) ([]byte, error) {
 		var buf bytes.Buffer
@@ -393,6 +394,71 @@ func c02HelperHistories(c *core.Ctx, r *core.Rand, n int, enc codec.Encoder, can
 			}
 		}
 		c.Dist("helper-histories")
+	}
+}
+
+// c02StreamRoots: the encoding is a function of the value, not of the node that holds it: reader-backed bytes nodes (a
+// node implementation of its own, which an encoder may treat specially) at every head boundary, as the ROOT handed to the
+// encoder and nested, encode to the bytes the plain bytes node of the same content encodes to, with the same
+// EncodedLength, and decode back.
+func c02StreamRoots(c *core.Ctx, r *core.Rand) {
+	lens := []int{0, 1, 23, 24, 255, 256, 65535, 65536}
+	if c.Thorough() {
+		lens = append(lens, 65534, 65537, 1<<20, 1<<24-1, 1<<24)
+	}
+	for _, L := range lens {
+		data := r.Bytes(L)
+		plain := basicnode.NewBytes(data)
+		var want bytes.Buffer
+		if err := dagcbor.Encode(plain, &want); err != nil {
+			continue
+		}
+		for _, shape := range []string{"root", "in-list", "in-map"} {
+			stream := basicnode.NewBytesFromReader(core.StreamSource(r, data))
+			var nd datamodel.Node = stream
+			wantBytes := want.Bytes()
+			if shape != "root" {
+				nb := basicnode.Prototype.Any.NewBuilder()
+				nbp := basicnode.Prototype.Any.NewBuilder()
+				if shape == "in-list" {
+					la, _ := nb.BeginList(1)
+					la.AssembleValue().AssignNode(stream)
+					la.Finish()
+					lp, _ := nbp.BeginList(1)
+					lp.AssembleValue().AssignNode(plain)
+					lp.Finish()
+				} else {
+					ma, _ := nb.BeginMap(1)
+					va, _ := ma.AssembleEntry("k")
+					va.AssignNode(stream)
+					ma.Finish()
+					mp, _ := nbp.BeginMap(1)
+					vp, _ := mp.AssembleEntry("k")
+					vp.AssignNode(plain)
+					mp.Finish()
+				}
+				nd = nb.Build()
+				var wb bytes.Buffer
+				dagcbor.Encode(nbp.Build(), &wb)
+				wantBytes = wb.Bytes()
+			}
+			caseID := fmt.Sprintf("c02.stream-bytes %s len=%d", shape, L)
+			c.Count(caseID, true)
+			c.Dist("stream-bytes:" + shape)
+			var got bytes.Buffer
+			err := dagcbor.Encode(nd, &got)
+			if err != nil || !bytes.Equal(got.Bytes(), wantBytes) {
+				c.Fail("C02/encoding-depends-on-node-implementation", core.Replay{Kind: "oracle", Case: caseID, Impl: hex.EncodeToString(truncateBytes(got.Bytes(), 24)) + fmt.Sprintf("… (%d bytes, err %v)", got.Len(), err),
+					Expected: hex.EncodeToString(truncateBytes(wantBytes, 24)) + fmt.Sprintf("… (%d bytes)", len(wantBytes)), Detail: "a reader-backed bytes node against the plain bytes node of the same content"})
+			}
+			if l, err := dagcbor.EncodedLength(nd); err != nil || l != int64(len(wantBytes)) {
+				c.Fail("C02/encodedlength-mismatch", core.Replay{Kind: "oracle", Case: caseID, Impl: fmt.Sprint(l, err), Expected: fmt.Sprint(len(wantBytes))})
+			}
+			nb := basicnode.Prototype.Any.NewBuilder()
+			if err := dagcbor.Decode(nb, bytes.NewReader(got.Bytes())); err != nil {
+				c.Fail("C02/own-output-not-decodable", core.Replay{Kind: "oracle", Case: caseID, Impl: err.Error(), Expected: "decodes"})
+			}
+		}
 	}
 }
 
